@@ -592,7 +592,21 @@ func c07Prefixes(c *core.Ctx) {
 		return
 	}
 	appendsSep := func(fn *ssa.Function) bool {
-		// append(buf, ": "...) : a constant ": " converted and appended
+		// append(buf, ": "...) : a constant ": " converted and appended — or
+		// the same separator joined by string concatenation
+		for _, f := range withHelpers(fn) {
+			for _, b := range f.Blocks {
+				for _, in := range b.Instrs {
+					if bo, ok := in.(*ssa.BinOp); ok && bo.Op == token.ADD {
+						for _, o := range []ssa.Value{bo.X, bo.Y} {
+							if s, isS := facts.ConstString(o); isS && s == ": " {
+								return true
+							}
+						}
+					}
+				}
+			}
+		}
 		for _, f := range withHelpers(fn) {
 			for _, ci := range facts.CallsIn(f) {
 				if bi, ok := ci.Common().Value.(*ssa.Builtin); ok && bi.Name() == "append" && len(ci.Common().Args) == 2 {
